@@ -30,8 +30,33 @@ type c19RecBalancer struct {
 	log *[]string
 }
 
+// c19Ctx is a request context whose deadline "passes" when the harness says so: 15 ms after the balancer has picked the
+// hung upstream.  Requests that never meet that target are not under any time limit, so the run does not depend on
+// how fast the machine is.
+type c19Ctx struct {
+	context.Context
+	done chan struct{}
+	once *sync.Once
+}
+
+func (c c19Ctx) Done() <-chan struct{} { return c.done }
+func (c c19Ctx) Err() error {
+	select {
+	case <-c.done:
+		return context.DeadlineExceeded
+	default:
+		return nil
+	}
+}
+func (c c19Ctx) expire() { c.once.Do(func() { close(c.done) }) }
+
 func (r c19RecBalancer) Next(c echo.Context) *middleware.ProxyTarget {
 	t := r.ProxyBalancer.Next(c)
+	if t != nil && t.Name == "h0" {
+		if hc, isHung := c.Request().Context().(c19Ctx); isHung {
+			time.AfterFunc(15*time.Millisecond, hc.expire)
+		}
+	}
 	if t != nil {
 		*r.log = append(*r.log, t.Name)
 	} else {
@@ -268,10 +293,9 @@ func genC19(rng *rand.Rand, n int, emit func(Case), dist map[string]int) {
 				}
 				req := httptest.NewRequest(method, reqTarget, rd)
 				if withHung {
-					// the client gives up after 15 ms: a target that does not answer in time is a failed attempt (502), not a client abort
-					ctx, cancel := context.WithTimeout(req.Context(), 15*time.Millisecond)
-					defer cancel()
-					req = req.WithContext(ctx)
+					// the client's deadline passes 15 ms after the hung target was chosen: a target that does not answer in
+					// time is a failed attempt (502), not a client abort
+					req = req.WithContext(c19Ctx{Context: req.Context(), done: make(chan struct{}), once: new(sync.Once)})
 				}
 				custom := fmt.Sprintf("c-%d", rng.Intn(1000))
 				req.Header.Set("X-Custom", custom)
